@@ -53,7 +53,7 @@ impl<M: Matcher> Replacer<M> {
         searcher: &Searcher,
         matcher: &M,
         mut haystack: &[u8],
-        range: std::ops::Range<usize>,
+        mut range: std::ops::Range<usize>,
         replacement: &[u8],
     ) -> io::Result<()> {
         // See the giant comment in 'find_iter_at_in_context' below for why we
@@ -71,10 +71,16 @@ impl<M: Matcher> Replacer<M> {
             // terminator. Otherwise, it's possible for the regex (via
             // look-around) to observe the line terminator and not match
             // because of it.
-            let mut m = Match::new(0, range.end);
+            //
+            // The line is searched on its own, as the searcher did when it
+            // decided that the line matches: an assertion such as \A sees
+            // the start of the line, not the start of whatever buffer the
+            // line happens to be in.
+            let mut m = Match::new(range.start, range.end);
             trim_line_terminator(searcher, haystack, &mut m);
             line_term = &haystack[m.end()..range.end];
-            haystack = &haystack[..m.end()];
+            haystack = &haystack[range.start..m.end()];
+            range = 0..range.end - range.start;
         }
         {
             let &mut Space { ref mut dst, ref mut caps, ref mut matches } =
@@ -515,9 +521,17 @@ where
         // When searching a single line, we should remove the line terminator.
         // Otherwise, it's possible for the regex (via look-around) to observe
         // the line terminator and not match because of it.
-        let mut m = Match::new(0, range.end);
+        //
+        // The line is searched on its own, as the searcher did when it
+        // decided that the line matches: an assertion such as \A sees the
+        // start of the line, not the start of whatever buffer the line
+        // happens to be in.
+        let mut m = Match::new(range.start, range.end);
         trim_line_terminator(searcher, bytes, &mut m);
-        bytes = &bytes[..m.end()];
+        let line = &bytes[range.start..m.end()];
+        return matcher
+            .find_iter_at(line, 0, |m| matched(m.offset(range.start)))
+            .map_err(io::Error::error_message);
     }
     let at_unterminated_end =
         is_at_unterminated_end(searcher, bytes, &range);
